@@ -52,7 +52,7 @@ def run(op, a):
             h = SignatureHash(inner, tx, idx, ht)
             der = k.sign(h)
             if short:
-                for _ in range(600):
+                for _ in range(300):
                     if len(der) < 70:
                         break
                     der = k.sign(h)
